@@ -222,7 +222,7 @@ def kani_env():
     return env
 
 
-def run_kani(slot, names, per_harness_timeout, total_timeout, extra=(), jobs=None):
+def run_kani(slot, names, per_harness_timeout, total_timeout, extra=(), jobs=None, vmem_kb=14680064):
     jobs = jobs or max(1, min(NCPU, len(names)))
     fmt = os.environ.get("VERIF_KANI_FORMAT", "terse")      # "regular" for debugging a single harness (forces -j 1)
     if fmt != "terse":
@@ -238,7 +238,7 @@ def run_kani(slot, names, per_harness_timeout, total_timeout, extra=(), jobs=Non
     cmd += list(extra)
     t0 = time.time()
     # memory guard: 14 GB of address space per process (CBMC winners use 0.8-3 GB)
-    shell = "ulimit -v 14680064; exec " + " ".join(map(shquote, cmd))
+    shell = f"ulimit -v {vmem_kb}; exec " + " ".join(map(shquote, cmd))
     try:
         p = subprocess.run(["bash", "-c", shell], cwd=os.path.join(slot.src, "guard"), env=kani_env(),
                            stdout=subprocess.PIPE, stderr=subprocess.STDOUT, timeout=total_timeout, text=True,
@@ -432,6 +432,27 @@ def run_property(slot, prop, tier, seed, hs, t0, a):
     if "error: could not compile" in out or re.search(r"^error(\[E\d+\])?:", out, re.M) and not any(
             r["status"] != "MISSING" for r in res.values()):
         errs = [l for l in out.splitlines() if l.startswith("error")][:8]
+        # which harness files do the compile errors point into? (a renamed/removed private item breaks only the
+        # family that names it): drop those files and run the rest once more
+        broken = set(re.findall(r"-->\s+\S*?/verif_harness/(\w+\.rs):", out))
+        broken_paths = {os.path.join(HARNESS_DIR, b) for b in broken}
+        # files that `require` a broken file are broken too
+        for h in hs:
+            for line in open(h["file"]).read().splitlines()[:10]:
+                m = re.match(r"^//!\s*requires:\s*(\S+)", line)
+                if m and os.path.join(HARNESS_DIR, m.group(1)) in broken_paths:
+                    broken_paths.add(h["file"])
+        rest = [h for h in hs if h["file"] not in broken_paths]
+        dropped = [h for h in hs if h["file"] in broken_paths]
+        if broken and rest and not getattr(a, "_retried", False):
+            a._retried = True
+            log(f"[{prop}] harness file(s) {sorted(broken)} do not compile against this tree; re-running the other families")
+            rc2 = run_property(slot, prop, tier, seed, rest, t0, a)
+            for h in dropped:
+                print(f"INCONCLUSIVE: {h['name']}: harness file {os.path.basename(h['file'])} does not compile against the current tree "
+                      f"({'; '.join(errs[:2])})")
+            # a violation found by the remaining families stands; otherwise the run is inconclusive, never a pass
+            return 1 if rc2 == 1 else 2
         problems.append("harness/crate does not compile under kani against the current tree: " + " | ".join(errs))
     known = load_known()
     failing = []
@@ -473,7 +494,8 @@ def run_property(slot, prop, tier, seed, hs, t0, a):
         log(f"[{prop}] FAILED: {[(n, [fc['desc'] for fc in fcs][:3]) for n, fcs in failing]}; extracting counterexamples "
             f"for {[n for n, _ in todo]}")
         pout, prc, _ = run_kani(slot, [full_name(byname[n]) for n, _ in todo], per_h, per_h + 600,
-                                extra=["-Z", "concrete-playback", "--concrete-playback=print"], jobs=1)
+                                extra=["-Z", "concrete-playback", "--concrete-playback=print"], jobs=1,
+                                vmem_kb=41943040)   # kani-driver holds the whole CBMC trace in memory here
         with open(os.path.join(CACHE, "logs", f"{prop}.{tier}.playback.log"), "w") as f:
             f.write(pout)
         all_tests = extract_playback_tests(pout)
